@@ -4370,8 +4370,12 @@ impl Interpreter {
             return Err(JsError::type_error("Symbol.iterator must return an object"));
         };
 
-        // Iterate: call next() until done is true
+        // Iterate: call next() until done is true.
+        // The values collected so far are held only by this Vec while later next() calls
+        // allocate: keep them guarded until the caller has stored them (the caller must
+        // do so before it allocates).
         let mut values = Vec::new();
+        let values_guard = self.heap.create_guard();
         let next_key = PropertyKey::String(self.intern("next"));
 
         loop {
@@ -4422,6 +4426,9 @@ impl Interpreter {
                     .unwrap_or(JsValue::Undefined)
             };
 
+            if let JsValue::Object(o) = &iter_value {
+                values_guard.guard(o.cheap_clone());
+            }
             values.push(iter_value);
         }
 
